@@ -27,6 +27,7 @@ pub fn sess_main(a: &vh::args::Args) {
             continue;
         }
         let scn: Value = serde_json::from_str(line).expect("scenario json");
+        eprintln!("SCN {}", i);
         let o = sess::run(&scn, hang);
         n += 1;
         if o.hung {
